@@ -16,7 +16,7 @@ CHECKS = {
 CHECKS['C01'] = dict(
     text="The TON representation hash/depth is an explicit TLA+ definition (TonCell over a pure-TLA+ SHA-256). TLC model-checks the DAG-growth "
          "machine (hash equality = structural equality, depth definition, level flatness) and enumerates every heap within the constants; each "
-         "is replayed through six construction routes and TLC re-derives every reported hash/depth/equality from the recorded content. Random "
+         "is replayed through nine construction routes (built, constructed, parsed, copied, converted from whole and partly read slices, ...) and TLC re-derives every reported hash/depth/equality from the recorded content. Random "
          "part covers every data length 0..1023, shared DAGs, a depth-1023 chain, foreign bags that store (right and wrong) hashes next to cells, "
          "and cell pairs whose hashes agree on a 32-bit window (equality and dictionary keys are decided by the whole hash).",
     note="TonSha/TonCell transcriptions (anchored by FIPS vectors, the symbolic-hash invariants and the bundled main-net block in C02); TLC; recording driver",
@@ -50,7 +50,7 @@ CHECKS['C05'] = dict(
          "hashes with real SHA-256, 1-2 roots incl. repeated/non-first, every forward cell order, three magics, cells within 7 bits of the "
          "1023-bit limit under every count/offset width); the driver derives "
          "truncations, extensions, single-bit flips and reference corruptions; Cell.from_boc's result on each input is compared by TLC with "
-         "Decode of the very same bytes. FlipDetected/TruncExtendErr/BadRefErr are model-checked on the format.",
+         "Decode of the very same bytes, also when the same bytes are parsed again after the caller emptied the list the first parse returned. FlipDetected/TruncExtendErr/BadRefErr are model-checked on the format.",
     note="TonBoc transcription; corruption classes limited to those the property names; CRC re-sealing uses the library crc32c (validated by C18)",
     tech="TLC-generated encodings (spec -> code) + TLC validation of parser outcomes against the strict TLA+ decoder", ref="8/C05")
 BAGNOTE = "TonBag.Do is my reading of the TL-B encodings and of capacity rules; TLC; the pool/projection driver (bagkit.py); Python exceptions of any class count as errors"
@@ -64,7 +64,8 @@ CHECKS['C06'] = dict(
 CHECKS['C07'] = dict(
     text="Same machine; the guard of every action (value fits its width, bits/refs fit the remaining capacity, enough bits/refs remain, depth <= 1023) "
          "is the specification of ok/err. Recorded stores at every fill level x ref level, out-of-range neighbours of every bound, over-reads on "
-         "built/BoC-parsed/plain-bitarray cells, composite stores, the empty field (## 0) and depth 1022..1024 are validated by TLC: refused "
+         "built/BoC-parsed/plain-bitarray cells (by one bit and far beyond, also at 1023 remaining bits), composite stores, the empty field (## 0), bit strings handed over in every iterable form "
+         "(for forms without a length the call may be refused, but if accepted it is this store) and depth 1022..1024 are validated by TLC: refused "
          "iff it does not fit.",
     note=BAGNOTE, tech="TLA+ state machine guards decide ok/err; TLC trace validation of recorded boundary behaviours; TLC model check of Capacity", ref="8/C07")
 CHECKS['C08'] = dict(
@@ -90,12 +91,12 @@ CHECKS['C10'] = dict(
     note="RefKind transcription from memory of dict.cpp (cross-checked by the MinKind lemma); pruned branches carry library hashes (inputs)",
     tech="TLC lemma over all label triples + TLC-generated valid/non-canonical/pruned trees replayed into the parsers + TLC validation of results", ref="8/C10")
 CHECKS['C11'] = dict(
-    text="CheckProof / CheckBlockHeader / account acceptance are TLA+ predicates over cells (TonProof). Soundness and completeness of CheckProof "
+    text="CheckProof / CheckBlockHeader / account and shard-block acceptance are TLA+ predicates over cells (TonProof, C11Trace). Soundness and completeness of CheckProof "
          "are model-checked with an injective symbolic hash over a bounded forgery space (every candidate body with any pruned token/depth vs "
          "every target tree); completeness and pruning invariance on the directed pruning machine. Genuine proofs (TLC-enumerated prunings, random "
-         "DAGs, synthetic block/state/account scenarios incl. update children pruned twice) and a dozen families of forgeries (among them a "
+         "DAGs, synthetic block/state/account scenarios incl. update children pruned twice, masterchain states with ShardHashes over two workchains) and some twenty families of forgeries (among them an altered cell arriving in a bag that stores the original hash next to it, a "
          "state smuggled through a hash slot the block hash does not cover, and absence claimed by pruning the path to an account) are run "
-         "through the three library checks and TLC decides from the recorded cells, with real SHA-256, whether each had to be accepted; the "
+         "through the four library checks (generic, block header, account state, shard block) and TLC decides from the recorded cells, with real SHA-256, whether each had to be accepted; the "
          "specification states what commits the new state (UpdateCommitsNewState).",
     note="TonCell/TonProof transcriptions; proofs are assembled with the library Builder and library hashes (inputs only); proofs of absence are not demanded",
     tech="TLC model check of proof soundness (symbolic hash) + TLC validation of accept/reject outcomes on recorded genuine and forged proofs", ref="8/C11")
@@ -126,7 +127,7 @@ CHECKS['C20'] = dict(
     text="Channel key selection, key ids, packet header and AES key/iv layout are TLA+ definitions with SHA-256 evaluated by TLC; the two-peer channel "
          "machine with symbolic DH/AES is model-checked (A.enc = B.dec, delivery, expected key id) for every id ordering incl. equal ids. Real "
          "channels for seeded key pairs (both orderings, forced equal ids), packets both ways, the signing helper with altered message/key/"
-         "signature, generated mnemonics, and key-derivation histories (a function of mnemonic and salt, ground truth from hashlib) are "
+         "signature, sequences of packets on one channel pair all held until the end (a packet is a value), mnemonics generated with defaults / explicit count / password, and key-derivation histories (a function of mnemonic and salt, ground truth from hashlib) are "
          "recorded and validated by TLC.",
     note="X25519/Ed25519/AES/PBKDF2 are library primitives taken as ground truth (shared secret recomputed with nacl, reference ciphertext with Cryptodome)",
     tech="TLA+ two-peer channel machine with symbolic crypto model-checked by TLC + TLC validation of recorded keys/packets (SHA-256 in TLA+)", ref="8/C20")
@@ -134,9 +135,9 @@ CHECKS['C14'] = dict(
     text="TonTL gives the TL framing (LE ids and integers, 1/4-byte length prefixes with 4-byte padding, vectors, flag-conditional fields, bare/boxed "
          "objects) over schemas-as-data; TLC re-renders every bundled constructor to its declaration text and recomputes its CRC-32 id, checks "
          "injectivity and prefix-freeness of the encoding on a synthetic schema. For each of the ~730 supported bundled constructors (base value, "
-         "flag combinations, string/bytes boundary lengths, vector lengths, polymorphic alternatives) the library's bytes must equal the spec's "
-         "encoding and parse back to the same value consuming all bytes; BlockIdExt helpers on boundary values.",
-    note="schema reader and dict<->value conversion in tlkit.py are glue (the reader is checked by TLC through Render and the id); text strings UTF-8; bytes values that are themselves TL objects are out of scope",
+         "flag combinations, string/bytes boundary lengths, texts that begin with a constructor id, vector lengths, polymorphic alternatives, boxed objects carried in bytes fields, the smallest encodings) the library's bytes must equal the spec's "
+         "encoding and parse back to the same value consuming all bytes - on one long-lived schemas object with malformed nested input interleaved; BlockIdExt helpers on boundary values.",
+    note="schema reader and dict<->value conversion in tlkit.py are glue (the reader is checked by TLC through Render and the id); text strings UTF-8; a raw bytes value that begins with a known constructor id is indistinguishable on the wire from the object it spells (MC_TL!NestedAmbiguity) and is not generated",
     tech="TLA+ TL encoding spec evaluated by TLC on recorded serialisations (trace validation) + TLC lemma (unique decodability) + TLC-checked schema transcription", ref="8/C14")
 TLBNOTE = "TlbSchema.tla is a hand transcription of block.tlb; attribute-path aliases and representation normalisation live in tlbkit.py (glue); constructors are compared through the label table TlbSchema!Labels"
 CHECKS['C15'] = dict(
